@@ -53,6 +53,41 @@ let () =
            | "reverse" -> hex (nl_reverse (s 0))
            | "upper" -> hex (nl_upper (s 0))
            | "lower" -> hex (nl_lower (s 0))
+           | "utf8char" -> res hex (nl_utf8char (n 0))
+           | "pack1" ->
+             (* only the formats  [<>=]?[iI]<size>  are modelled *)
+             let f = String.concat "" (List.map (fun c -> String.make 1 (Char.chr (int_of_z c))) (s 0)) in
+             let little, rest =
+               if String.length f > 0 && (f.[0] = '<' || f.[0] = '=') then true, String.sub f 1 (String.length f - 1)
+               else if String.length f > 0 && f.[0] = '>' then false, String.sub f 1 (String.length f - 1)
+               else true, f in
+             if String.length rest >= 2 && (rest.[0] = 'i' || rest.[0] = 'I')
+                && (String.for_all (fun c -> c >= '0' && c <= '9') (String.sub rest 1 (String.length rest - 1))) then begin
+               let size = int_of_string (String.sub rest 1 (String.length rest - 1)) in
+               if size < 1 || size > 16 then "?"
+               else if rest.[0] = 'i' then hex (nl_pack_int (n 1) (z_of_int size) little)
+               else hex (nl_pack_uint (n 1) (z_of_int size) little)
+             end else "?"
+           | "unpack" ->
+             (* format indexes 1..64 are  <i1 <I1 ... <i16 <I16 >i1 ... >I16 ; init = 1 only *)
+             let k = int_of_z (n 0) in
+             if k < 1 || k > 64 || List.nth args 2 <> "1" then "?"
+             else begin
+               let little = k <= 32 in
+               let j = (k - 1) mod 32 in
+               let size = j / 2 + 1 in
+               let signed = j mod 2 = 0 in
+               let data = s 1 in
+               if List.length data < size then "!trap"
+               else begin
+                 let rec take n l = if n = 0 then [] else match l with [] -> [] | x :: r -> x :: take (n - 1) r in
+                 match nl_unpack_int (take size data) (z_of_int size) little signed with
+                 | None -> "!trap"
+                 | Some v ->
+                   let shown = if signed then v else u64 v in
+                   dec_of_z shown ^ " " ^ string_of_int (size + 1)
+               end
+             end
            | "abs" -> dec_of_z (nl_abs (n 0))
            | "fmod" -> res dec_of_z (nl_fmod (n 0) (n 1))
            | "ult" -> b2s (nl_ult (n 0) (n 1))
